@@ -153,6 +153,33 @@ def run(tier):
         if r.get("changed") == "tree-of-an-earlier-parse-changed" and r.get("part") in ("tokens", "positions"):
             check.violation({"class": "objects-of-an-earlier-parse-changed", "kind": r.get("part"), "size_class": "parse"}, {"task": {"src": t["src"], "ver": t["ver"], "others": len(t["others"])}, "observed": r})
 
+    # ---- who may share a pool (PoolShared.tla): Get is three unsynchronised steps; with one pool per parser Fresh is an invariant of
+    # any interleaving, with one pool for all it is not (negative check: TLC must find the double hand-out).  The real parsers are
+    # then run at the same time on many goroutines and the objects reachable from their trees compared by identity and content.
+    for shared in (False, True):
+        cfgs = ("SPECIFICATION Spec\nCONSTANTS Parsers = {p1, p2%s} Size = 2 MaxGets = %d Shared = %s\nINVARIANTS Fresh InBlock\nCHECK_DEADLOCK FALSE\n"
+                % ("" if shared or tier == "quick" else ", p3", 3 if shared or tier == "quick" else 3, "TRUE" if shared else "FALSE"))
+        r = core.tlc("PoolShared", cfgs, allow_violation=shared)
+        check.add_tlc("PoolShared(Shared=%s)" % shared, r)
+        if shared and not r.violated:
+            raise core.InfraError("PoolShared.tla with one pool for all parsers satisfies Fresh: the model of Get lost its race")
+    srcs = [p for p in inputs.programs(check, tier) if len(p["src"]) > 200]
+    rng.shuffle(srcs)
+    big = [{"src": x, "ver": "5.6"} for x in progs.scaled_sources(check, "5", core.seed(), 700 if tier == "quick" else 4000, (40,))]
+    ct = [{"op": "pool_concurrent", "inputs": srcs[k * 48:(k + 1) * 48] + big, "goroutines": 16, "rounds": 3 if tier == "quick" else 10, "limit_ms": 300000}
+          for k in range(2 if tier == "quick" else 12)]
+    wpc = core.WorkerPool(core.build_worker(), n=1, chunk=1, idle_timeout=600)
+    nobj = 0
+    for t, r in zip(ct, wpc.run(ct)):
+        check.count(r.get("rounds", 0) * r.get("inputs", 0))
+        nobj += r.get("objects", 0)
+        if r.get("panic") or r.get("hang") or r.get("crash"):
+            check.violation({"class": "crash", "kind": "parsers-at-the-same-time", "size_class": "parse"}, {"observed": r, "inputs": len(t["inputs"])})
+        for b in r.get("bad") or []:
+            check.violation({"class": b["what"], "kind": "parsers-at-the-same-time", "size_class": "parse"},
+                            {"observed": b, "input": t["inputs"][b["input"]], "goroutines": 16})
+    check.cov["objects_compared_across_concurrent_parses"] = nobj
+
     # ---- impl -> spec: long histories on the real pools validated by TLC
     plan = [(1, 6), (2, 7), (3, 11), (7, 23), (64, 3 * 64 + 2)]
     plan.append((1024, 2 * 1024 + 2 if tier == "quick" else 3 * 1024 + 2))
